@@ -1,5 +1,5 @@
 (* ArraySmash.v — mirror of crab::domains::array_smashing<interval_domain>
-   (include/crab/domains/array_smashing.hpp), with the repairs of fixes/arrays-2
+   (include/crab/domains/array_smashing.hpp), with the repairs of fixes/arrays-2 and arrays-3
    (array_assign from an array of unknown element size forgets the left-hand side;
    equal_size on a bottom last-access environment).
 
